@@ -411,7 +411,7 @@ func vfC11Check(c vfC11Case) error {
 	}
 	// side-band attribution (only on the path that runs to the normal end)
 	if c.RefServer && !startFault[c.ServerFault] && c.ServerFault != "die" && c.ClientFault != "send-error" {
-		wantSideband := map[string]string{}
+		wantSideband := map[string][]string{} // every feedback line of a case, in order
 		var wantForwarded []string
 		for _, line := range vfC11StderrLines(c) {
 			str := strings.TrimSpace(line)
@@ -421,15 +421,21 @@ func vfC11Check(c vfC11Case) error {
 			parts := strings.SplitN(str, ": ", 2)
 			if len(parts) == 2 {
 				if _, ok := expected[parts[0]]; ok {
-					wantSideband[parts[0]] = parts[1]
+					wantSideband[parts[0]] = append(wantSideband[parts[0]], parts[1])
 					continue
 				}
 			}
 			wantForwarded = append(wantForwarded, line)
 		}
-		for name, msg := range wantSideband {
-			if results.serverSideband[name] != msg {
-				return verifkit.Violf("sideband-attribution", "feedback for %q: recorded %q, want %q (stderr %q)", name, results.serverSideband[name], msg, vfC11StderrLines(c))
+		for name, msgs := range wantSideband {
+			// how several lines for one case are combined is the runner's business; none may get lost
+			rest := results.serverSideband[name]
+			for _, msg := range msgs {
+				i := strings.Index(rest, msg)
+				if i < 0 {
+					return verifkit.Violf("sideband-attribution", "feedback for %q: recorded %q, which lacks (or misorders) the line %q of %q (stderr %q)", name, results.serverSideband[name], msg, msgs, vfC11StderrLines(c))
+				}
+				rest = rest[i+len(msg):]
 			}
 		}
 		for name := range results.serverSideband {
